@@ -115,7 +115,7 @@ def judgeLine (a : Acc) (l : String) : Except Verdict Acc := do
   | ["lex", inp, cls] =>
     let some bs := unescRaw inp | throw (.badop l)
     let some cl := parseCls cls | throw (.badop l)
-    let c : Ctx := { inp := bs.map (·.toNat), cls := cl, fixed := Gen.peekRestoresWidth }
+    let c : Ctx := { inp := bs.map (·.toNat), cls := cl, fixed := Gen.peekRestoresWidth == some true }
     let some o := parseLexObs obs | throw (.badop l)
     if let some r := lexSpec c o then throw (fail r)
     let m := lexRun c
@@ -131,7 +131,7 @@ def judgeLine (a : Acc) (l : String) : Except Verdict Acc := do
   | ["parse", kind, inp, cls] =>
     let some bs := unescRaw inp | throw (.badop l)
     let some cl := parseCls cls | throw (.badop l)
-    let c : Ctx := { inp := bs.map (·.toNat), cls := cl, fixed := Gen.peekRestoresWidth }
+    let c : Ctx := { inp := bs.map (·.toNat), cls := cl, fixed := Gen.peekRestoresWidth == some true }
     let (res, leak) ← match obs with
       | ["X", how] => pure (how, 0)
       | [r, n] => match n.toNat? with | some n => pure (r, n) | none => throw (.badop l)
@@ -141,14 +141,14 @@ def judgeLine (a : Acc) (l : String) : Except Verdict Acc := do
     let lexErr := match lexRun c with | .done ts => endsInError ts | _ => true
     if lexErr && res != "err" then throw (.mismatch s!"parse {kind} {inp}: lexer model ends in an error token but the entry point answered {res}")
     -- tie: the lexer goroutine is gone afterwards, however many tokens the parser took
-    if !lexerGoroutineExits c Gen.stopParseDrains 0 then
+    if !lexerGoroutineExits c (Gen.stopParseDrains == some true) 0 then
       throw (.mismatch s!"parse {kind} {inp}: model says the lexer goroutine stays blocked, none was observed")
     pure ((a.add [s!"parse.{kind}.{res}"]))
   | ["getnode", tag] =>
     let some tag := unesc tag | throw (.badop l)
     let res := match obs with | ["X", how] => how | [r] => r | _ => "?"
     if let some r := defineSpec res 0 then throw (fail r)
-    match getNode Gen.getNodeTags Gen.getNodeDefaultErr tag with
+    match getNode Gen.getNodeTags (Gen.getNodeDefaultErr == some true) tag with
     | .unmarshal => pure (a.add ["getnode.known"])
     | .error => if res != "err" then throw (.mismatch s!"getnode {tag}: model err observed {res}") else pure (a.add ["getnode.unknown-is-error"])
     | .trap => throw (.mismatch s!"getnode {tag}: model traps, observed {res}")
